@@ -16,6 +16,7 @@ import (
 	"regexp"
 	"strconv"
 	"strings"
+	"time"
 
 	"github.com/wader/fq/internal/aheadreadseeker"
 	"github.com/wader/fq/internal/bitiox"
@@ -386,6 +387,9 @@ func runOp(cur *any, o op) string {
 		return fmt.Sprintf("%d %s %s", n, bitsHex(p, got), errClass(err))
 	case "ird":
 		p := make([]byte, o.n)
+		for i := range p {
+			p[i] = 0xa5 // the pad bits of a last partial byte must be zeroed by the reader, not by the caller
+		}
 		n, err := r.(io.Reader).Read(p)
 		if n < 0 || n > len(p) {
 			return fmt.Sprintf("%d - %s", n, errClass(err))
@@ -403,9 +407,28 @@ type runner struct {
 	tmpDir string
 }
 
+// a call that never returns (e.g. ReadFull over a reader that keeps answering 0 bits without error) must not
+// take the whole run down silently: report the history as a property failure and stop
+func (rn *runner) watchdog(text string) *time.Timer {
+	return time.AfterFunc(20*time.Second, func() {
+		// the text after PROPFAIL is the replayable history (a call in it did not return within 20s)
+		rn.o.Verdict("PROPFAIL", text)
+		rn.o.Close()
+		os.Exit(3)
+	})
+}
+
 func (rn *runner) history(t *node, ops []op) {
 	b := &built{tmpDir: rn.tmpDir}
 	var obs []string
+	{
+		ss := make([]string, len(ops))
+		for i, o := range ops {
+			ss[i] = o.String()
+		}
+		wd := rn.watchdog("h " + t.term() + " | " + strings.Join(ss, " ; "))
+		defer wd.Stop()
+	}
 	func() {
 		defer b.close()
 		var cur any
@@ -1024,6 +1047,7 @@ func (rn *runner) quirks() {
 }
 
 func (rn *runner) replayLine(l string) {
+	l = strings.TrimPrefix(l, "PROPFAIL ")
 	ws := strings.Fields(l)
 	switch ws[0] {
 	case "r64":
